@@ -475,6 +475,17 @@ func checkC06(c *hx.Checker) {
 					v.Acts = append(v.Acts, acts[k])
 				}
 				jobs = append(jobs, v.job())
+				// every activation tuple also together with linear_before_reset / input_forget (honoured or refused)
+				if op == "GRU" {
+					vl := v
+					vl.LBR = true
+					jobs = append(jobs, vl.job())
+				}
+				if op == "LSTM" {
+					vl := v
+					vl.InputForget = true
+					jobs = append(jobs, vl.job())
+				}
 				vc := v
 				vc.Acts = nil
 				for _, k := range ix {
